@@ -7,5 +7,6 @@ open Pyrealb.C08Fr
 #print axioms disagree_whe_second_pp
 #print axioms disagree_modal_cod
 #print axioms disagree_other_prep_pronoun
+#print axioms disagree_refl_modal_person
 #print axioms clitic_agree_holds
 #print axioms notations_agree_fr_partial
